@@ -39,6 +39,9 @@ class NumpyEncoder(json.JSONEncoder):
     def default(self, obj):
         if isinstance(obj, np.ndarray):
             return obj.tolist()
+        if isinstance(obj, np.generic):
+            # the result of a computation is a NumPy scalar: 1+1 is np.int64(2)
+            return obj.item()
         return json.JSONEncoder.default(self, obj)
 
 
